@@ -60,7 +60,7 @@ def _typestate(ctx):
     reached = loop.reached
     backs = K.loop_back_edges(head)
     ctx.require(len(backs) >= 4, 'ends of an iteration of the placement '
-                                 'loop (found %d)' % len(backs))
+                                 'loop (found %d)' % len(backs), rule='C05.1')
     for edge in backs:
         bad = None
         states = set()
@@ -440,7 +440,8 @@ def _model_removal(ctx):
                    'identity was released on every path (an unplaced '
                    'instance may still hold one until the next cycle)',
                    construct='release before ' + site[0].text(40))
-    ctx.require(count >= 1, 'removal of an instance from Cell.apps')
+    ctx.require(count >= 1, 'removal of an instance from Cell.apps',
+        rule='C05.2')
 
 
 _POOL_METHODS = {'difference_update': 'remove', 'update': 'add',
@@ -507,7 +508,8 @@ def _forced(ctx):
     stores = [n for n in graph.nodes if any(
         N.txt(t) == 'self.identity' and N.txt(v) == param
         for t, v, _k in K.assigns_attr(n))]
-    ctx.require(stores, 'store self.identity = <param> in force_set_identity')
+    ctx.require(stores, 'store self.identity = <param> in force_set_identity',
+        rule='C05.4')
     for node in stores:
         def discards(cur):
             for call in C.node_calls(cur):
@@ -539,7 +541,7 @@ def _publication(ctx):
                     ctx.ob('C05.5', func, sub, ok,
                            "record key 'identity' <- %s" % src,
                            construct="'identity': %s" % N.txt(val))
-    ctx.require(found, "'identity' key in the placement record")
+    ctx.require(found, "'identity' key in the placement record", rule='C05.5')
 
 
 def _resolve_local(func, expr):
@@ -599,7 +601,7 @@ def _group_removal(ctx):
                'by instances can be dropped' % N.show(atom))
         if ok:
             flagged.extend(e.dst for e in test.succ if e.kind == found_kind)
-    ctx.require(tests, 'in-use branch of %s' % func.qualname)
+    ctx.require(tests, 'in-use branch of %s' % func.qualname, rule='C05.6')
     # the deletion is reachable only when the loop found no reference
     flags = set()
     for start in flagged:
